@@ -474,7 +474,11 @@ func builtinLoadString(env *LEnv, args *LVal) *LVal {
 	// optimization from unwinding the stack to/beyond this point.
 	env.Runtime.Stack.Top().TROBlock = true
 	verifEv(env.Runtime.Stack, "tro", 0, 0, "", "")
-	v := env.root().LoadString(_name, source.Str)
+	// Evaluate under the caller's context (bridged onto env by call()), not
+	// under whatever context the root environment happens to hold: otherwise a
+	// cancellation or deadline does not reach source loaded from inside a
+	// function body.
+	v := env.root().LoadStringContext(env.evalCtx, _name, source.Str)
 	if v.Type == LError && v.CallStack() == nil {
 		v.SetCallStack(env.Runtime.Stack.Copy())
 	}
@@ -503,7 +507,8 @@ func builtinLoadBytes(env *LEnv, args *LVal) *LVal {
 	// optimization from unwinding the stack to/beyond this point.
 	env.Runtime.Stack.Top().TROBlock = true
 	verifEv(env.Runtime.Stack, "tro", 0, 0, "", "")
-	v := env.root().Load(_name, bytes.NewReader(source.Bytes()))
+	// Under the caller's context; see builtinLoadString.
+	v := env.root().LoadContext(env.evalCtx, _name, bytes.NewReader(source.Bytes()))
 	if v.Type == LError && v.CallStack() == nil {
 		v.SetCallStack(env.Runtime.Stack.Copy())
 	}
@@ -522,7 +527,8 @@ func builtinLoadFile(env *LEnv, args *LVal) *LVal {
 	// optimization from unwinding the stack to/beyond this point.
 	env.Runtime.Stack.Top().TROBlock = true
 	verifEv(env.Runtime.Stack, "tro", 0, 0, "", "")
-	v := env.root().LoadFile(loc.Str)
+	// Under the caller's context; see builtinLoadString.
+	v := env.root().LoadFileContext(env.evalCtx, loc.Str)
 	if v.Type == LError && v.CallStack() == nil {
 		v.SetCallStack(env.Runtime.Stack.Copy())
 	}
